@@ -66,7 +66,8 @@ def run(tier):
                    "Constraint.eval", "functions defined by FandangoSpec.run_code(code_text) (PythonProcessor output, ast.unparse, exec)",
                    "reference: CPython compile() of the same text"]
     run.extra["source_sha256_16"] = source_fingerprint(FILES)
-    run.extra["programs"] = {"expressions": ne, "formulas": nf, "statement programs": ns}
+    run.extra["programs"] = ne + nf + ns
+    run.extra["corpus"] = {"expressions": ne, "formulas": nf, "statement programs": ns}
     run.extra["rejected_by_reader"] = {"expr": rej_e, "formula": rej_f, "stmt": rej_s}
     run.bounds = {"programs": f"{ne} expressions (all {11 * 11} ordered pairs of binary operators; unary/comparison/boolean/conditional operators; lambdas with every "
                               f"parameter kind; comprehensions; subscripts and slices; calls with */** arguments; literals; f-strings; symbol references inside nested "
